@@ -22,7 +22,7 @@ RULE = (
     "non-trivial = simplify changed the plan (the filter was moved / restructured); distinct by (context, predicate)"
 )
 ASSUMPTIONS = ["pandas boolean semantics define the reference (comparison with missing -> False, != with missing -> True)", "leftsemi reference = left rows whose key occurs in the right frame"]
-BUDGET_S = {"quick": 170, "thorough": 3000}
+BUDGET_S = {"quick": 170, "thorough": 900}
 
 # ----------------------------------------------------------------- data
 
